@@ -229,7 +229,7 @@ static void cmd_gssv(kv_t *K)
     vrt_mem_scope(1);
     PG(gssv)(P, &S.A, S.perm_c, S.perm_r, &S.L, &S.U, &B, &info);
     vrt_mem_scope(0);
-    thr1 = vrt_thread_count(); fd1 = vrt_fd_count(); live1 = vrt_mem_live_count();
+    thr1 = vrt_thread_count_until(thr0); fd1 = vrt_fd_count(); live1 = vrt_mem_live_count();
     {
 	int Aunch = ck[0] == fnv(S.val, sizeof(SCALAR) * S.nnz) && ck[1] == fnv(S.ind, sizeof(int_t) * S.nnz) && ck[2] == fnv(S.ptr, sizeof(int_t) * (n + 1));
 	int Bunch = !memcmp(bcopy, b, sizeof(SCALAR) * ldb * (nrhs ? nrhs : 1));
@@ -353,7 +353,7 @@ static void cmd_gssvx(kv_t *K)
     vrt_mem_scope(1);
     PG(gssvx)(P, &S.opt, &S.A, S.perm_c, S.perm_r, &S.equed, S.R, S.C, &S.L, &S.U, &B, &X, &rpg, &rcond, ferr, berr, &mu, &info);
     vrt_mem_scope(0);
-    thr1 = vrt_thread_count(); live1 = vrt_mem_live_count();
+    thr1 = vrt_thread_count_until(thr0); live1 = vrt_mem_live_count();
     {
 	int did_fact = (fact != FACTORED) && lwork != -1 && vrt_xerbla_count == 0;
 	int rowact, colact, Aok = 1, Bok = 1, Xunch = 1, permunch, Lunch = -1, Aunch;
